@@ -34,6 +34,8 @@ def spell(items):
             out.append("'" + chr(int(b)) + "'")
         elif t == 'STR':
             out.append('"a\\"b"')
+        elif t == 'STRL':
+            out.append('"glob1: b"')
         elif t == 'REF':
             out.append({'g1': 'glob1', 'l1': '.loc1'}.get(a, 'glob2'))
         elif t == 'DIR':
